@@ -43,18 +43,16 @@ FID_17B = "Compose-vs-Sequence/chain-with-untyped-variable/after-typed-variable/
 
 
 # ---------------------------------------------------------------- strict structural equality
-def canon(x):
-    if isinstance(x, dict):
-        return ("d", tuple(sorted(((repr(k), canon(v)) for k, v in x.items()))))
-    if isinstance(x, list):
-        return ("l", tuple(canon(v) for v in x))
-    if isinstance(x, tuple):
-        return ("t", tuple(canon(v) for v in x))
-    return (type(x).__name__, repr(x))
-
-
 def same(a, b):
-    return canon(a) == canon(b)
+    """structural equality that also tells True from 1, 0 from False and a list from a tuple"""
+    ta = type(a)
+    if ta is not type(b):
+        return False
+    if ta is dict:
+        return len(a) == len(b) and all(k in b and same(v, b[k]) for k, v in a.items())
+    if ta is list or ta is tuple:
+        return len(a) == len(b) and all(same(x, y) for x, y in zip(a, b))
+    return a == b
 
 
 def has_items(d, items):
@@ -169,14 +167,14 @@ CONFIRMED_HANGS = [0]
 
 def attempt(f):
     """(True, result) or (False, kind of failure).  Variables are stateless, so a call that ran into the 2 s wall-clock
-    watchdog is repeated once with 15 s before it is reported: on a loaded machine the process may simply not have been
+    watchdog is repeated once with 8 s before it is reported: on a loaded machine the process may simply not have been
     scheduled (after 3 confirmed hangs no more second chances, to keep the run bounded)."""
-    for seconds in (2, 15):
+    for seconds in (2, 8):
         try:
             with watchdog(seconds):
                 return True, f()
         except Timeout:
-            if seconds == 15 or CONFIRMED_HANGS[0] >= 3:
+            if seconds == 8 or CONFIRMED_HANGS[0] >= 3:
                 CONFIRMED_HANGS[0] += 1
                 return False, "NON-TERMINATION"
         except RecursionError:
@@ -665,7 +663,7 @@ def body(R):
     try:
         scopes(R)
     except HangBudget:
-        R.scope("(run cut short)", "stopped after 3 confirmed non-terminations (each repeated with a 15 s limit); the scopes "
+        R.scope("(run cut short)", "stopped after 3 confirmed non-terminations (each repeated with an 8 s limit); the scopes "
                 "above are incomplete", False)
 
 
@@ -680,7 +678,7 @@ def scopes(R):
             "all chains of n=1..5 variables with pairwise distinct non-empty types x 3 type alphabets (multi-char, single-char, "
             "mixed; not in sorted order) x 4 attribute sets (none / differently named per variable / same-named / nested+falsy) x 10 values' contexts "
             "(bare data, {}, other keys only, variable={}, untyped variable, Combine-made variable, typed variable with 1, 1, 2, 3 "
-            "earlier types) x 2 data; each: data = nested getters, Compose context = Sequence context, name/attributes/type of "
+            "earlier types) x data {7, [0, ""]} (quick tier: the second only with the differently named attributes); each: data = nested getters, Compose context = Sequence context, name/attributes/type of "
             "the last variable, every type's attributes and compose order (on the Sequence), context outside variable unchanged, "
             "no attribute of an earlier variable left at the top level, var_contexts/getters unchanged, 2 repetitions incl. after "
             "scribbling over the first result", True)
@@ -689,7 +687,7 @@ def scopes(R):
             for astyle in ("none", "own", "simple", "nested"):
                 chain = [V("v%d" % i, types[i], attrs_of(astyle, i), i) for i in range(n)]
                 for pre in pres:
-                    for data in datas:
+                    for data in (datas if R.thorough or astyle == "own" else datas[:1]):
                         res = check_chain(chain, pre, data)
                         R.case(True, {"chain": [describe(e) for e in chain], "pre": pre, "data": data})
                         report(R, res, "replay_chain", [chain, pre, data, None])
@@ -697,7 +695,7 @@ def scopes(R):
     # ---- S2
     R.scope("Combine",
             "all Combine tuples of n=1..4 variables x components (all typed / none typed / alternating) x 2 attribute sets x "
-            "4 keyword sets (none; name; type+attribute; name+type+nested attribute) x the 10 contexts x data 7: data = tuple of "
+            "4 keyword sets (none; name; type+attribute; name+type+nested attribute) x the 10 contexts (quick tier: 4 of them for the nested attributes) x data 7: data = tuple of "
             "getters' results, name (joined with '_' unless given), dim, combine[i] holds variable i's name/attributes/type, "
             "typed Combine: attributes under its type and compose order after a typed variable; frame; var_contexts unchanged; "
             "repetition incl. after scribbling", True)
@@ -709,7 +707,7 @@ def scopes(R):
                         attrs_of(astyle, i), 10 + i) for i in range(n)]
                 for kw in kws:
                     spec = Cb(of, kw)
-                    for pre in pres:
+                    for pre in (pres if R.thorough or astyle == "simple" else pres[::3]):
                         res = check_combine(spec, pre, 7)
                         R.case(True, {"combine": describe(spec), "pre": pre})
                         report(R, res, "replay_combine", [spec, pre, 7])
@@ -780,7 +778,7 @@ def scopes(R):
                 report(R, res, "replay_chain", [chain, pre, 7, kw])
 
     # ---- S5
-    n5 = 50000 if R.thorough else 1500
+    n5 = 40000 if R.thorough else 1000
     R.scope("random chains and Combines",
             "%d seeded cases: n=1..5, random distinct types (1..5 characters), 0..3 random nested JSON attributes from 8 names, "
             "random value context (bare / other keys / untyped variable / typed variable with 1..3 earlier types, random attributes); "
